@@ -16,8 +16,8 @@ CLAIMED = {
  "C03": dict(text="Continuity decomposed into solver-decided facts: output equals the exact table interpolant within 2^-23 and adjacent counter values differ by at most steepest-slope*step+2ulp (slices of both tables), table endpoint/slope facts through the code's constants, exact hand-over levels at every segment joint, and gate events that restart the curve exactly at the level being output.",
    note="Per-tick bound for arbitrary increments follows from interpolant+slope facts by the triangle inequality (2*2^-23 slack); scaling to stretched segments is the affine expression argument of C01. Quick = boundary + seeded slices.",
    tech=K+SL, ref="§4 C03"),
- "C04": dict(text="Inductive step per note event against an executable reference model (ordered list of outstanding note-ons): from ANY valid receiver state with up to K held notes (K=8 quick, 32 thorough), one note-on / note-off / All-Notes-Off leaves gate, note by priority, velocity and the held list equal to the model.",
-   note="Handlers are driven directly (handle_note_on/off); that parse() calls the right handler with the right arguments after the right byte is C06's framing harness; both compose to the stream-level claim. Lists longer than the tier's K are outside the quick claim.",
+ "C04": dict(text="Inductive step per note event against an executable reference model (ordered list of outstanding note-ons): from ANY valid receiver state with up to K held notes (K=8 quick, 16 thorough; K=32 for All-Notes-Off), one note-on / note-off / All-Notes-Off leaves gate, note by priority, velocity and the held list equal to the model.",
+   note="Handlers are driven directly (handle_note_on/off); that parse() calls the right handler with the right arguments after the right byte is C06's framing harness; both compose to the stream-level claim. Lists longer than the tier's K are outside the claim (K=32 note-off did not finish in 50 min).",
    tech=K, ref="§4 C04"),
  "C05": dict(text="Same inductive steps with the edge latches in the model (set exactly on a gate change, cleared by the opposite event), plus getters that return-and-clear only their own latch; 'exactly once' follows by induction over messages and polls.",
    note="As C04. The CC123 arm of parse() is real code in its harness; note handlers it never reaches are stubbed there to keep the other match arms small.",
@@ -43,18 +43,18 @@ CLAIMED = {
  "C12": dict(text="Triangle: exact integer reference + Lipschitz fact for every phase and every increment. Sine: output equals the wrapping table interpolant within 2^-23 and adjacent phases differ by <= 2*pi*1.002*step+2ulp on slices (incl. the wrap), table slope facts for all cells, and an all-phase betweenness query.",
    note="Larger increments follow from interpolant+slope facts (triangle inequality, 2*2^-23 slack). Quick = boundary + seeded slices of the sine; thorough all 256.",
    tech=K+SL, ref="§4 C12"),
- "C13": dict(text="Every time setting installs a legal one-pole low-pass (weights >= 0 summing to 1, pole in [0,1)) for any f32 t in [0,10] at fixed sample rates, and one step of the real biquad with ARBITRARY legal coefficients and arbitrary state is a convex combination whose held-input error keeps its sign and does not grow; induction gives the range and no-ringing claims for all input sequences and set_time schedules.",
-   note="tan is foreign code (libm via std): replaced by a contract (convex envelope, 256 segments, plus a 1.5e-7 linearisation at pi/4). Signals in the step harness lie on a 2^-8 grid in [-1,1]. 'Settles on it' is claimed as pole < 1 and monotone approach, not as a limit. Long-run gain error of the f32 filter (weights sum to 1 within 2.4e-7) is the 'f32 resolution of the filter'.",
-   tech=K+"; Kani stub with contract for the foreign tanf", ref="§4 C13"),
- "C14": dict(text="Dead band, clamps and pole placement decided at the coefficient level: set_time ignored iff within 0.05 s, t<2/fs equals t=0 with pole <= 0.25, t>10 equals t=10, and for N=t*fs>=100 the pole satisfies 5.298/N <= 1-p, (1-p)/p <= 7.666/N on a 1/1024 s grid per fixed rate.",
-   note="The step-response percentages follow from the pole window and the closed form error = (1-b0)*p^n of a one-pole recurrence (stated assumption; its single step is C13's harness); N-step responses are not unrolled. tan replaced by its contract.",
-   tech=K+"; Kani stub with contract for the foreign tanf", ref="§4 C14"),
+ "C13": dict(text="For ANY f32 time in [0,10] at fixed sample rates the installed coefficients are a one-pole low-pass with non-negative weights and pole in [0,1) (never negative beyond rounding, never on the unit circle), decided for the whole tan contract; the state handling of process()/set_time() is decided by a public-API history harness (4 samples, set_time in the middle incl. glide off/on, every returned output within the hull of the inputs and the previous returned output, monotone approach of a held input).",
+   note="tan is foreign code (libm via std): replaced by a contract (convex envelope, 256 segments, plus a 1.5e-7 linearisation at pi/4). Not decidable here and stated as such: 'weights sum to 1' (two f32 dividers: evaluated concretely at 8 settings per rate with one representative tangent, otherwise a three-rounding argument) and the one-step hull property for arbitrary coefficients/state (optional thorough harness, did not finish in 40 min). The history harness uses one representative of the tan contract and inputs from {-1,-0.5,0,0.5,1}. 'Settles on it' is claimed as pole < 1 and monotone approach, not as a limit.",
+   tech=K+"; Kani stub with contract for the foreign tanf", ref="§11.2 Glide"),
+ "C14": dict(text="Dead band, clamps and pole placement decided at the coefficient level for every f32 argument: set_time ignored iff within 0.05 s of the time in effect (then nothing changes), t<2/fs (incl. -0.0) requests exactly the fastest response with pole <= 0.25, t>10 requests exactly the response of t=10; for N=t*fs>=100 the pole satisfies 5.298/N <= 1-p, (1-p)/p <= 7.666/N on a 1/16 s grid per fixed rate; plus the public-API history harness of C13 (process() really runs the recurrence on the returned outputs).",
+   note="The step-response percentages follow from the pole window and the closed form error = (1-b0)*p^n of a one-pole recurrence (stated assumption); N-step responses are not unrolled. tan replaced by its contract.",
+   tech=K+"; Kani stub with contract for the foreign tanf", ref="§11.2 Glide"),
  "C15": dict(text="Inductive step of poll() from any state consistent with an unbroken run of any length against a run-length model (three capacities: 18, 35, 171), plus bounded public-API histories with a symbolic in/out-of-range pattern at small capacities.",
    note="Histories at capacity 4 (quick) and 9 (thorough); larger capacities by the inductive step (the code is generic in the capacity).",
    tech=K, ref="§4 C15"),
- "C16": dict(text="Public-API differential at 1 kHz: value in [0,1], between corrected min and max of the contributing samples, bit-identical to a second real controller that saw a different earlier press and different excluded newest samples, monotone in each contributing sample, retained after lift; resistor triples keep the corrected mean in range.",
-   note="Samples on a 2^-10 grid; capacity 18 only (larger capacities multiply the float-sum query beyond reach and are outside the claim).",
-   tech=K, ref="§4 C16"),
+ "C16": dict(text="Step-level differential on the poll that reports/refreshes the value: buffer filled without branching (left-over samples of an earlier press, then the current run), one real poll(); a second controller differing in the left-over samples and in the samples inside the finger-lift allowance reports the bit-identical value in [0,1]; between-min-max and monotonicity through the public API at capacity 4; settle/allowance counts of new() for every integer rate 100..192000; edge resistor triples through poll(); run-counter invariant shared with C15.",
+   note="Value step at capacity 9 (quick) and 18 (thorough); between/monotone on a 2^-4 grid at capacity 4; resistor triples through poll() are four concrete ones incl. the weakest allowed pull-up (fully symbolic triples only at the level of error_estimate()).",
+   tech=K, ref="§11.2 Ribbon"),
  "C17": dict(text="Kani's built-in checks (overflow, index, division, unwrap, debug_assert, casts) over every harness that drives a public operation with symbolic arguments from an arbitrary valid state, plus public-API call sequences per module and the progress argument (increment >= 1, tick advances or ends the phase).",
    note="Dev-profile semantics (overflow checks and debug assertions on). set_phase is covered by the MIR->SMT range query (C11). Glide at fixed sample rates with tan contract.",
    tech=K, ref="§4 C17"),
